@@ -277,7 +277,9 @@ theorem evolves_removeOp (pi : Nat) (w : W) : Evolves w (removeOp pi w) := by
   unfold removeOp removeRun runGroup
   split
   · exact Evolves.refl w
-  · exact evolves_runGroup pi _ (w, none)
+  · split
+    · exact Evolves.refl w
+    · exact evolves_runGroup pi _ (w, none)
 
 theorem evolves_addOp (pi : Nat) (w : W) : Evolves w (addOp pi w) := by
   unfold addOp addRun runGroup
